@@ -38,11 +38,19 @@ def rule_producer_poll(repo: Repo, rep: Report, rid: str = "E8-producer-poll") -
                     continue
                 # candidate flags: names read in the loop test, or in tests of exits inside the body
                 cands = set()
+                want = {}      # flag -> truthiness the dispose function must write for the loop to stop
+                from ..astutil import atoms as _atoms
                 if isinstance(n, ast.While):
                     cands |= {x.id for x in ast.walk(n.test) if isinstance(x, ast.Name)}
+                    for e_, p_ in _atoms(n.test, True):
+                        if isinstance(e_, ast.Name):
+                            want[e_.id] = not p_
                 for x in ast.walk(n):
                     if isinstance(x, ast.If) and any(isinstance(y, (ast.Break, ast.Return)) for y in ast.walk(x)):
                         cands |= {y.id for y in ast.walk(x.test) if isinstance(y, ast.Name)}
+                        for e_, p_ in _atoms(x.test, True):
+                            if isinstance(e_, ast.Name):
+                                want.setdefault(e_.id, p_)
                 ok = False
                 why = "no cancellation flag is tested by the loop"
                 for v in sorted(cands):
@@ -59,6 +67,11 @@ def rule_producer_poll(repo: Repo, rep: Report, rid: str = "E8-producer-poll") -
                                 for t in tg:
                                     base = t.value if isinstance(t, ast.Subscript) else t
                                     if isinstance(base, ast.Name) and base.id == v and h.owner(v) is o:
+                                        val_ = y.value
+                                        if v in want and isinstance(val_, ast.Constant) and bool(val_.value) != want[v]:
+                                            why = (f"{h.qual} writes `{short(y)}`, which does not stop a loop that runs while "
+                                                   f"`{'not ' if want[v] else ''}{v}`")
+                                            continue
                                         writes = True
                         if not writes:
                             continue
